@@ -1,5 +1,8 @@
 import Uft.Lemmas.Mcount
 import Uft.Lemmas.McountCore
+import Uft.Lemmas.McountRestore
+import Uft.Lemmas.FstackRecord
+import Uft.Lemmas.StreamShape
 /- C05 — Record-time filters and triggers select exactly the documented calls. -/
 namespace Uft.C05
 open Uft.Mcount
@@ -17,11 +20,6 @@ theorem c05_pg_leak_witness :
     (runCall cfgFL .cyg (St.init cfgFL) (.node 0 10 20 .nil)).filt.inCount = 0 := by
   decide
 
-theorem entry_cyg_took (cfg : Cfg) (s : St) (f t0 : Nat) : (entry cfg .cyg s f t0).2 = true := by
-  unfold entry
-  simp only
-  split <;> rfl
-
 /-
 The filter state (`core`: in/out counts, depth, max-depth, time and size
 thresholds, record index, shadow-stack shape with each frame's saved values) of
@@ -33,25 +31,6 @@ tracing), every option set, every call tree (any depth, also beyond
 (-finstrument-functions / xray).  This is "a filter hit never leaks into later
 sibling calls".
 -/
-mutual
-theorem restored_call (cfg : Cfg) (hf : cfg.fast = false) (hfin : ∀ f, (cfg.trig f).finish = false) :
-    ∀ (c : Call) (s : St), (core s).WF cfg → core (runCall cfg .cyg s c) = core s
-  | .node f t0 t1 kids, s, hwf => by
-    have h1 := core_entry_cyg cfg hf s f t0 (hfin f)
-    have hwf1 : (core (entry cfg .cyg s f t0).1).WF cfg := by rw [h1]; exact entryCore_wf cfg f _ hwf
-    have hk := restored_calls cfg hf hfin kids (entry cfg .cyg s f t0).1 hwf1
-    simp only [runCall, entry_cyg_took, ↓reduceIte]
-    rw [core_exit cfg hf, hk, h1, exitCore_entryCore cfg f _ hwf]
-theorem restored_calls (cfg : Cfg) (hf : cfg.fast = false) (hfin : ∀ f, (cfg.trig f).finish = false) :
-    ∀ (cs : Calls) (s : St), (core s).WF cfg → core (runCalls cfg .cyg s cs) = core s
-  | .nil, s, _ => rfl
-  | .cons c rest, s, hwf => by
-    have h1 := restored_call cfg hf hfin c s hwf
-    have h2 := restored_calls cfg hf hfin rest (runCall cfg .cyg s c) (by rw [h1]; exact hwf)
-    simp only [runCalls]
-    rw [h2, h1]
-end
-
 /-- C05, state restoration: see the comment above `restored_call`. -/
 theorem c05_state_restored_cyg (cfg : Cfg) (hf : cfg.fast = false)
     (hfin : ∀ f, (cfg.trig f).finish = false) (c : Call) (s : St) (hwf : (core s).WF cfg) :
@@ -64,35 +43,6 @@ theorem c05_forest_restores_initial_cyg (cfg : Cfg) (hf : cfg.fast = false)
     (hfin : ∀ f, (cfg.trig f).finish = false) (cs : Calls) :
     core (runCalls cfg .cyg (St.init cfg) cs) = core (St.init cfg) :=
   restored_calls cfg hf hfin cs (St.init cfg) (Or.inl rfl)
-
-mutual
-theorem restored_call_pg (cfg : Cfg) (hf : cfg.fast = false) (hfix : cfg.f4fixed = true)
-    (hfin : ∀ f, (cfg.trig f).finish = false) :
-    ∀ (c : Call) (s : St), (core s).WF cfg → core (runCall cfg .pg s c) = core s
-  | .node f t0 t1 kids, s, hwf => by
-    simp only [runCall]
-    by_cases hp : (entry cfg .pg s f t0).2 = true
-    · have h1 : core (entry cfg .pg s f t0).1 = entryCore cfg f (core s) :=
-        (core_entry_pg_push cfg hf s f t0 (hfin f) hp).trans (core_entry_cyg cfg hf s f t0 (hfin f))
-      have hwf1 : (core (entry cfg .pg s f t0).1).WF cfg := by rw [h1]; exact entryCore_wf cfg f _ hwf
-      have hk := restored_calls_pg cfg hf hfix hfin kids (entry cfg .pg s f t0).1 hwf1
-      simp only [hp, ↓reduceIte]
-      rw [core_exit cfg hf, hk, h1, exitCore_entryCore cfg f _ hwf]
-    · have hp' : (entry cfg .pg s f t0).2 = false := by simpa using hp
-      have h1 := core_entry_pg_nopush cfg hf hfix s f t0 hp'
-      have hk := restored_calls_pg cfg hf hfix hfin kids (entry cfg .pg s f t0).1 (by rw [h1]; exact hwf)
-      simp only [hp', Bool.false_eq_true, ↓reduceIte]
-      rw [hk, h1]
-theorem restored_calls_pg (cfg : Cfg) (hf : cfg.fast = false) (hfix : cfg.f4fixed = true)
-    (hfin : ∀ f, (cfg.trig f).finish = false) :
-    ∀ (cs : Calls) (s : St), (core s).WF cfg → core (runCalls cfg .pg s cs) = core s
-  | .nil, s, _ => rfl
-  | .cons c rest, s, hwf => by
-    have h1 := restored_call_pg cfg hf hfix hfin c s hwf
-    have h2 := restored_calls_pg cfg hf hfix hfin rest (runCall cfg .pg s c) (by rw [h1]; exact hwf)
-    simp only [runCalls]
-    rw [h2, h1]
-end
 
 /-- C05, state restoration for the -pg / -mfentry / patched-entry hooks (code
     with the repair of F4): the filter state after any call equals the state
@@ -114,5 +64,76 @@ theorem c05_method_independent_state (cfg : Cfg) (hf : cfg.fast = false) (hfix :
 example : cfgFL.fast = false ∧ ∀ f, (cfgFL.trig f).finish = false := by
   refine ⟨rfl, fun f => ?_⟩
   simp only [cfgFL]; split <;> (try split) <;> rfl
+
+/-!
+Part 3: the recorded *output*.  `Uft.Fstack.spec` is the documented selection (one definition,
+`Uft/Model/Fstack.lean`: -F opens, -N closes, -D budgets from the nearest -F, -t prunes calls
+that ran under the threshold unless a kept call is below them); `record_out`
+(`Uft/Lemmas/FstackRecord.lean`, proved for C07) says the hooks write exactly it.  Restated
+here because these are C05's clauses: the trace is the documented selection, it does not
+depend on the instrumentation method, and it is well nested (every recorded call has its
+recorded ancestors around it, at depth = number of recorded ancestors).
+-/
+open Uft.Fstack in
+/-- **The recorded trace is exactly the documented selection**, for every table of -F / -N
+    entries, every -D and -t, both hook families, every forest of properly nested calls within
+    --max-stack (`≥ threshold` for the repaired hooks, `>` for the code before S4's repair). -/
+theorem c05_records_documented_selection (cfg : Cfg) (h : FND cfg) (k : Kind) (cs : Calls) (n : Nat)
+    (hh : cs.height ≤ cfg.maxStack) (hn : Calls.allDurLe n cs) :
+    (runCalls cfg k (St.init cfg) cs).out = spec (RCfg.ofRecord cfg) (!cfg.s4fixed) cs :=
+  record_out cfg h k cs n hh hn
+
+open Uft.Fstack in
+/-- **The trace does not depend on the instrumentation method**: -pg / -mfentry / patched
+    entries and -finstrument-functions write the same records (same hypotheses). -/
+theorem c05_method_independent_output (cfg : Cfg) (h : FND cfg) (cs : Calls) (n : Nat)
+    (hh : cs.height ≤ cfg.maxStack) (hn : Calls.allDurLe n cs) :
+    (runCalls cfg .pg (St.init cfg) cs).out = (runCalls cfg .cyg (St.init cfg) cs).out := by
+  rw [record_out cfg h .pg cs n hh hn, record_out cfg h .cyg cs n hh hn]
+
+open Uft.Fstack in
+mutual
+theorem nest_specCall (c : RCfg) : ∀ (x : Call) (E : Env) (st : List Nat),
+    nestRun (some st) (specCall c E st.length x) = some st
+  | .node f t0 t1 kids, E, st => by
+    simp only [specCall]
+    split
+    · have hk := nest_specCalls c kids (visit c E f).2 (f :: st)
+      simp only [List.length_cons] at hk
+      simp only [nestRun_append]
+      have h1 : nestRun (some st) [{ time := t0, type := 0, depth := st.length, addr := f }] = some (f :: st) := by
+        simp [nestRun, nestStep]
+      rw [h1, hk]
+      simp [nestRun, nestStep]
+    · exact nest_specCalls c kids (visit c E f).2 st
+theorem nest_specCalls (c : RCfg) : ∀ (xs : Calls) (E : Env) (st : List Nat),
+    nestRun (some st) (specCalls c E st.length xs) = some st
+  | .nil, _, st => by simp [specCalls, nestRun]
+  | .cons x rest, E, st => by
+    simp only [specCalls, nestRun_append]
+    rw [nest_specCall c x E st, nest_specCalls c rest E st]
+end
+
+open Uft.Fstack in
+/-- **Recorded ancestors are present**: under any -F / -N / -D / -t the written stream is well
+    nested — every EXIT closes the innermost open recorded call with the same address, and every
+    record's depth is the number of recorded calls open around it (checked by the independent
+    stack machine `WellNested`). -/
+theorem c05_filtered_stream_well_nested (cfg : Cfg) (h : FND cfg) (k : Kind) (cs : Calls) (n : Nat)
+    (hh : cs.height ≤ cfg.maxStack) (hn : Calls.allDurLe n cs) :
+    WellNested (runCalls cfg k (St.init cfg) cs).out := by
+  rw [record_out cfg h k cs n hh hn]
+  exact nest_specCalls _ _ _ []
+
+open Uft.Fstack in
+/-- non-vacuity: `-F f1 -N f3 -D 2 -t 5` with a three-level forest meets the hypotheses, and the
+    selection is neither empty nor everything -/
+example :
+    let cfg : Cfg := { depthOpt := 2, threshold := 5, optIn := true,
+                       trig := fun f => { filter := if f = 1 then some true else if f = 3 then some false else none } }
+    let cs : Calls := .cons (.node 1 10 60 (.cons (.node 2 20 40 (.cons (.node 3 25 28 .nil) .nil)) .nil)) .nil
+    spec (RCfg.ofRecord cfg) false cs =
+      [⟨10, 0, 0, 1⟩, ⟨20, 0, 1, 2⟩, ⟨40, 1, 1, 2⟩, ⟨60, 1, 0, 1⟩] := by
+  decide
 
 end Uft.C05
